@@ -22,6 +22,20 @@ import dns.update
 
 NOW = 1700000000  # the pinned clock (TSIG time_signed of the corpus)
 
+
+class _NoShuffle:
+    """dns.rdataset shuffles the records of an RRset when rendering; keep the corpus (and
+    every re-rendering in the check) deterministic."""
+
+    @staticmethod
+    def shuffle(seq):
+        return None
+
+
+import dns.rdataset  # noqa: E402
+
+dns.rdataset.random = _NoShuffle
+
 B64 = "AQNRU3mG7TVTO2BkR47usntb102uFJtugbo6BSGvgqt4AQ=="
 B64S = "AwEAAbdx"
 HEX20 = "123456789abcdef67890123456789abcdef67890"
@@ -296,7 +310,7 @@ def type_messages(first_form_only=True):
 
 FAMILIES = [("IN", "A"), ("IN", "NS"), ("IN", "SOA"), ("IN", "MX"), ("IN", "TXT"), ("IN", "NAPTR"),
             ("IN", "RRSIG"), ("IN", "NSEC3"), ("IN", "SVCB"), ("IN", "HIP"), ("IN", "IPSECKEY"),
-            ("IN", "APL"), ("IN", "LOC"), ("IN", "CAA"), ("IN", "TYPE65280"), ("CH", "A")]
+            ("IN", "APL"), ("IN", "LOC"), ("IN", "CAA"), ("IN", "URI"), ("IN", "TYPE65280"), ("CH", "A")]
 
 
 def structural_messages():
